@@ -446,3 +446,22 @@ CASES["C19"] = [
     ("twin: reassociation written with explicit constructor", "twin", CANONA, "        new_expr = expr.rhs + expr.lhs\n", "        new_expr = AffineBinaryOpExpr(AffineBinaryOpKind.Add, expr.rhs, expr.lhs)\n", []),
     ("twin: a + 0 test spelled with not", "twin", CANONA, "        if expr.rhs.value == 0:\n            return expr.lhs", "        if not expr.rhs.value != 0:\n            return expr.lhs", []),
 ]
+
+DECODEF = "snaxc/phs/decode.py"
+PHSDF = "snaxc/dialects/phs.py"
+PHSACC = "snaxc/accelerators/snax_phs.py"
+
+CASES["C20"] = [
+    ("one-alternative chooses counted", "mutant", PHSDF, "                if len(list(switchee.operations())) > 1:\n                    count += 1\n", "                count += 1\n", ["C20.switch-count"]),
+    ("one-alternative chooses emit a value", "mutant", DECODEF, "            if len(list(switchee.operations())) == 1:\n                continue\n", "            if len(list(switchee.operations())) == 1:\n                call_switches.append(0)\n                continue\n", ["C20.switch-count"]),
+    ("unused choose emits nothing", "mutant", DECODEF, "                call_switches.append(0)\n                continue\n            target_operation", "                continue\n            target_operation", ["C20.switch-count"]),
+    ("muxes not counted", "mutant", PHSDF, "            elif isinstance(switchee, MuxOp):\n                count += 1\n", "            elif isinstance(switchee, MuxOp):\n                pass\n", ["C20.switch-count"]),
+    ("values grouped: chooses first, then muxes", "mutant", DECODEF, "    return cast(Sequence[int], call_switches)", "    return cast(Sequence[int], [*[s for s in call_switches if not isinstance(s, phs.MuxOp)], *[mapping[m] for m in mux_switches]])", ["C20.decode-order"]),
+    ("placeholder replaced at the wrong index", "mutant", DECODEF, "            call_switches[i] = mapping[switch]", "            call_switches[i - 1] = mapping[switch]", ["C20.decode-order"]),
+    ("only the first half of the muxes searched", "mutant", DECODEF, "    mapping = search_mapping(graph, abstract_graph, mux_switches)", "    mapping = search_mapping(graph, abstract_graph, mux_switches[: len(mux_switches) // 2 + 1])", ["C20.search-complete"]),
+    ("search tries the left branch only", "mutant", DECODEF, "    choices = (0, 1)  # 0 = left branch , 1 = right branch", "    choices = (0,)  # 0 = left branch", ["C20.search-complete"]),
+    ("mapping returned unvalidated", "mutant", DECODEF, "        if valid_mapping(graph, abstract_graph, mapping):\n            return mapping.copy()\n        return\n", "        return mapping.copy()\n", ["C20.search-complete"]),
+    ("fields sized by switch_no", "mutant", PHSACC, "for i in range(self.pe.get_true_switches()):", "for i in range(self.pe.switch_no.value.data):", ["C20.accelerator"]),
+    ("twin: count via conditional expression", "twin", PHSDF, "                if len(list(switchee.operations())) > 1:\n                    count += 1\n", "                if not len(list(switchee.operations())) <= 1:\n                    count += 1\n", []),
+    ("twin: one-alternative test spelled <= 1", "twin", DECODEF, "            if len(list(switchee.operations())) == 1:\n                continue\n", "            if len(list(switchee.operations())) <= 1:\n                continue\n", []),
+]
